@@ -302,6 +302,11 @@ impl Real {
         self.store.delete(&seg_key(id)).await.unwrap();
         self.log(out, format!("DELSEG {}", id), "ok".into());
     }
+    pub async fn tornseg(&mut self, out: &mut Out, id: u64) {
+        let data = self.store.get(&seg_key(id)).await.unwrap();
+        self.store.put(&seg_key(id), &data[..data.len() / 2]).await.unwrap();
+        self.log(out, format!("TORNSEG {}", id), "ok".into());
+    }
     pub async fn chk(&mut self, out: &mut Out, name: u64, last: u64, state: &HashMap<String, ReplicatedValue>) {
         let data = CheckpointWriter::new(Compression::None).write(state.clone(), name, last).unwrap();
         self.store.put(&chk_key(name), &data).await.unwrap();
@@ -630,11 +635,16 @@ async fn case(out: &mut Out, rng: &mut Rng, corpus: Option<&str>) {
     if !a.persisted.is_empty() && rng.chance(1, 8) {
         let (mut real, _) = layout(out, rng, &ups, false, "layout-del").await;
         if let Some(s) = real.man.segments.first().cloned() {
-            real.delseg(out, s.id).await;
+            if rng.chance(1, 2) {
+                real.delseg(out, s.id).await;
+            } else {
+                real.tornseg(out, s.id).await;
+                out.count("layout:torn-segment");
+            }
             let r = real.rec(out).await;
             let skipped = real.man.checkpoint.as_ref().map(|c| s.id <= c.last_segment_id).unwrap_or(false);
             if r.is_ok() && !skipped {
-                out.violation("C11:missing-segment-ignored", "recover() succeeded although a listed segment object is missing", json!({"layout": real.text}));
+                out.violation("C11:missing-segment-ignored", "recover() succeeded although a listed segment object is missing or torn", json!({"layout": real.text}));
             }
             out.count("layout:missing-segment");
         }
